@@ -13,7 +13,8 @@
      _output_port_ / _output_direction_        -> [port_sexp]   (array form iff is_array; no direction
                                                   construct for UNDEFINED)
      _output_instance_ / _get_edif_name_       -> [inst_sexp]
-     _output_property_                         -> [prop_sexp]   (string / boolean / integer)
+     _output_property_                         -> [prop_sexp], [xprop_sexp]   (string / boolean / integer; number (e m x)
+                                                  for floats, which are a parameter [fl])
      _output_cable_ / _output_name_of_cable_wire_ / _get_wire_index_
                                                -> Fmt/EdifNets.emit_nets (reused) + [net_sexp]
      _output_inner_pin_ / _output_port_ref_    -> [pin_sexp]    (member iff the port is an array)
@@ -38,7 +39,7 @@
      whose index is not below the port's width, duplicate sibling identifiers.
    Not expressible in [nvfile] at all (the harness counts such netlists and does not compare them):
    EDIF.rename set on an element whose name equals its identifier ((rename x "x") is written),
-   "oldName" metadata, float / None / other property values, negative lower_index.
+   "oldName" metadata, None / non-finite float / other property values, negative lower_index.
    [EmRaises]: compose raises (instance without reference, netlist without top instance).
    No proofs in this file. *)
 From Coq Require Import List NArith ZArith Bool Arith String.
@@ -93,6 +94,54 @@ Definition dec_z (z : Z) : str :=
   | Zneg p => 45 :: dec (Npos p)
   end.
 
+(* boolean equality, first part *)
+Fixpoint list_eqb {X : Type} (e : X -> X -> bool) (a b : list X) : bool :=
+  match a, b with
+  | [], [] => true
+  | x :: a', y :: b' => e x y && list_eqb e a' b'
+  | _, _ => false
+  end.
+Definition opt_eqb {X : Type} (e : X -> X -> bool) (a b : option X) : bool :=
+  match a, b with
+  | None, None => true
+  | Some x, Some y => e x y
+  | _, _ => false
+  end.
+Definition pair_eqb (a b : str * str) : bool := str_eqb (fst a) (fst b) && str_eqb (snd a) (snd b).
+Definition pval_eqb (a b : pval) : bool :=
+  match a, b with
+  | PVInt x, PVInt y => Z.eqb x y
+  | PVStr x, PVStr y => str_eqb x y
+  | PVBool x, PVBool y => Bool.eqb x y
+  | _, _ => false
+  end.
+Definition prop_eqb (a b : nvprop) : bool :=
+  str_eqb (pr_ident a) (pr_ident b) && opt_eqb str_eqb (pr_orig a) (pr_orig b) && pval_eqb (pr_val a) (pr_val b).
+
+(* FLOAT-valued properties. The value type [pval] of Fmt/EdifFile.v has no real numbers (the reader
+   model answers FeUnsupported on (number (e m x))), so a netlist value cannot carry them. They are
+   a parameter of the writer model, like the timestamp: [fl] gives, for the instances that have at
+   least one float property, the complete property list with every float as sign, decimal digits
+   and exponent of Decimal(repr(value)).normalize() (that conversion is Python's; the harness
+   recomputes it from repr(value) by string operations). The instance's [in_props] must be that
+   list without the floats, else EmUnsupported. *)
+Inductive xval := XV (v : pval) | XNum (neg : bool) (digits : N) (exp : Z).
+Record xprop := mkxprop { xp_ident : str; xp_orig : option str; xp_val : xval }.
+Definition fkey := (str * str * str)%type.                 (* library, cell, instance identifiers *)
+Definition floats := list (fkey * list xprop).
+Definition fkey_eqb (a b : fkey) : bool :=
+  str_eqb (fst (fst a)) (fst (fst b)) && str_eqb (snd (fst a)) (snd (fst b)) && str_eqb (snd a) (snd b).
+Definition float_props (fl : floats) (k : fkey) : option (list xprop) :=
+  option_map snd (find (fun kv : fkey * list xprop => fkey_eqb (fst kv) k) fl).
+Fixpoint xbase (xs : list xprop) : list nvprop :=
+  match xs with
+  | [] => []
+  | x :: r => match xp_val x with
+              | XV v => mkprop (xp_ident x) (xp_orig x) v :: xbase r
+              | XNum _ _ _ => xbase r
+              end
+  end.
+
 (* ---------------------------------------------------------------------------------------- *)
 (* properties, ports, instances *)
 Definition val_sexp (v : pval) : emres sexp :=
@@ -110,6 +159,24 @@ Definition prop_sexp (p : nvprop) : emres sexp :=
   edo v <- val_sexp (pr_val p);
   EmOk (SList [KW "property"; n; v]).
 
+Definition xprop_sexp (p : xprop) : emres sexp :=
+  match xp_val p with
+  | XV v => prop_sexp (mkprop (xp_ident p) (xp_orig p) v)
+  | XNum neg digits e =>
+    edo n <- match xp_orig p with
+             | Some o => rename_sexp (xp_ident p) o
+             | None => atom_of (xp_ident p)
+             end;
+    EmOk (SList [KW "property"; n;
+                 SList [KW "number"; SList [KW "e"; Atom ((if neg then [45] else []) ++ dec digits); Atom (dec_z e)]]])
+  end.
+
+Definition props_sexp (fl : floats) (k : fkey) (ps : list nvprop) : emres (list sexp) :=
+  match float_props fl k with
+  | None => emap prop_sexp ps
+  | Some xs => if list_eqb prop_eqb (xbase xs) ps then emap xprop_sexp xs else EmUnsupported
+  end.
+
 Definition dir_sexp (d : N) : emres (list sexp) :=
   if N.eqb d 0 then EmOk []
   else if N.eqb d 1 then EmOk [SList [KW "direction"; KW "INPUT"]]
@@ -124,14 +191,14 @@ Definition port_sexp (p : nvport) : emres sexp :=
   then EmOk (SList ([KW "port"; SList [KW "array"; n; Atom (dec (po_width p))]] ++ d))
   else EmOk (SList (KW "port" :: n :: d)).
 
-Definition inst_sexp (i : nvinst) : emres sexp :=
+Definition inst_sexp (fl : floats) (lib cell : str) (i : nvinst) : emres sexp :=
   match in_ref i with
   | None => EmRaises
   | Some (l, c) =>
     edo n <- name_sexp (in_ident i) (in_name i);
     edo ca <- atom_of c;
     edo la <- atom_of l;
-    edo ps <- emap prop_sexp (in_props i);
+    edo ps <- props_sexp fl (lib, cell, in_ident i) (in_props i);
     EmOk (SList ([KW "instance"; n;
                   SList [KW "viewref"; KW "netlist"; SList [KW "cellref"; ca; SList [KW "libraryref"; la]]]] ++ ps))
   end.
@@ -197,11 +264,11 @@ Fixpoint uniq_ci (l : list str) : bool :=
 
 Definition is_nil {X : Type} (l : list X) : bool := match l with [] => true | _ => false end.
 
-Definition cell_sexp (libs : list nvlib) (c : nvcell) : emres sexp :=
+Definition cell_sexp (fl : floats) (libs : list nvlib) (lib : str) (c : nvcell) : emres sexp :=
   if negb (uniq_ci (map po_ident (ce_ports c)) && uniq_ci (map in_ident (ce_insts c))) then EmUnsupported else
   edo n <- name_sexp (ce_ident c) (ce_name c);
   edo ports <- emap port_sexp (ce_ports c);
-  edo insts <- emap inst_sexp (ce_insts c);
+  edo insts <- emap (inst_sexp fl lib (ce_ident c)) (ce_insts c);
   edo nets <- emap (net_sexp libs c) (emit_nets (ce_cabs c));
   let contents := if is_nil (ce_insts c) && is_nil (ce_cabs c) then []
                   else [SList (KW "contents" :: insts ++ nets)] in
@@ -209,10 +276,10 @@ Definition cell_sexp (libs : list nvlib) (c : nvcell) : emres sexp :=
                SList ([KW "view"; KW "netlist"; SList [KW "viewtype"; KW "NETLIST"];
                        SList (KW "interface" :: ports)] ++ contents)]).
 
-Definition lib_sexp (libs : list nvlib) (L : nvlib) : emres sexp :=
+Definition lib_sexp (fl : floats) (libs : list nvlib) (L : nvlib) : emres sexp :=
   if negb (uniq_ci (map ce_ident (li_cells L))) then EmUnsupported else
   edo n <- name_sexp (li_ident L) (li_name L);
-  edo cells <- emap (cell_sexp libs) (li_cells L);
+  edo cells <- emap (cell_sexp fl libs (li_ident L)) (li_cells L);
   EmOk (SList ([KW "Library"; n; SList [KW "edifLevel"; KW "0"];
                 SList [KW "technology"; SList [KW "numberDefinition"]]] ++ cells)).
 
@@ -238,14 +305,14 @@ Definition status_sexp (ts : list str) (prog : option (str * option str)) : emre
                SList ([KW "written"; SList (KW "timeStamp" :: t)] ++ p ++
                       [SList [KW "comment"; Str (K "Built by 'BYU spydrnet tool'")]])]).
 
-Definition emit_file (ts : list str) (prog : option (str * option str)) (n : nvfile) : emres sexp :=
+Definition emit_file (ts : list str) (prog : option (str * option str)) (fl : floats) (n : nvfile) : emres sexp :=
   match nf_top n with
   | None => EmRaises
   | Some t =>
     if negb (uniq_ci (map li_ident (nf_libs n))) then EmUnsupported else
     edo nm <- name_sexp (nf_ident n) (nf_name n);
     edo st <- status_sexp ts prog;
-    edo libs <- emap (lib_sexp (nf_libs n)) (nf_libs n);
+    edo libs <- emap (lib_sexp fl (nf_libs n)) (nf_libs n);
     edo tn <- name_sexp (tp_ident t) (tp_name t);
     edo tc <- atom_of (tp_cell t);
     edo tl <- atom_of (tp_lib t);
@@ -256,8 +323,8 @@ Definition emit_file (ts : list str) (prog : option (str * option str)) (n : nvf
 
 (* the text written (without the composer's line breaks and indentation: the tokenizer does not
    see them, Proofs/EdifLexProofs.tokenize_print) *)
-Definition emit_text (ts : list str) (prog : option (str * option str)) (n : nvfile) : emres str :=
-  edo d <- emit_file ts prog n; EmOk (print d).
+Definition emit_text (ts : list str) (prog : option (str * option str)) (fl : floats) (n : nvfile) : emres str :=
+  edo d <- emit_file ts prog fl n; EmOk (print d).
 
 (* ---------------------------------------------------------------------------------------- *)
 (* the reordering part of the pre-pass on the value: libraries by "a cell of mine instantiates a
@@ -331,28 +398,6 @@ Definition norm_file (n : nvfile) : nvfile := mkfile (nf_name n) (nf_ident n) (m
 
 (* ---------------------------------------------------------------------------------------- *)
 (* boolean equality of netlist values *)
-Fixpoint list_eqb {X : Type} (e : X -> X -> bool) (a b : list X) : bool :=
-  match a, b with
-  | [], [] => true
-  | x :: a', y :: b' => e x y && list_eqb e a' b'
-  | _, _ => false
-  end.
-Definition opt_eqb {X : Type} (e : X -> X -> bool) (a b : option X) : bool :=
-  match a, b with
-  | None, None => true
-  | Some x, Some y => e x y
-  | _, _ => false
-  end.
-Definition pair_eqb (a b : str * str) : bool := str_eqb (fst a) (fst b) && str_eqb (snd a) (snd b).
-Definition pval_eqb (a b : pval) : bool :=
-  match a, b with
-  | PVInt x, PVInt y => Z.eqb x y
-  | PVStr x, PVStr y => str_eqb x y
-  | PVBool x, PVBool y => Bool.eqb x y
-  | _, _ => false
-  end.
-Definition prop_eqb (a b : nvprop) : bool :=
-  str_eqb (pr_ident a) (pr_ident b) && opt_eqb str_eqb (pr_orig a) (pr_orig b) && pval_eqb (pr_val a) (pr_val b).
 Definition port_eqb (a b : nvport) : bool :=
   str_eqb (po_name a) (po_name b) && str_eqb (po_ident a) (po_ident b) && N.eqb (po_dir a) (po_dir b) &&
   N.eqb (po_width a) (po_width b) && Bool.eqb (po_array a) (po_array b).
@@ -381,8 +426,8 @@ Definition file_eqb (a b : nvfile) : bool :=
    1 = the reader model is outside its subset on the written document, 2 = it refuses it,
    3 = it returns another value, 4 = the document is not its own text (sexp_ok fails),
    5 = the writer model raises / is outside its subset *)
-Definition rt_status (ts : list str) (prog : option (str * option str)) (n : nvfile) : N :=
-  match emit_file ts prog n with
+Definition rt_status (ts : list str) (prog : option (str * option str)) (fl : floats) (n : nvfile) : N :=
+  match emit_file ts prog fl n with
   | EmOk d =>
     if negb (sexp_ok d) then 4 else
     match elab_file d with
@@ -392,8 +437,8 @@ Definition rt_status (ts : list str) (prog : option (str * option str)) (n : nvf
     end
   | _ => 5
   end.
-Definition rt_check (ts : list str) (prog : option (str * option str)) (n : nvfile) : bool :=
-  N.eqb (rt_status ts prog n) 0.
+Definition rt_check (ts : list str) (prog : option (str * option str)) (fl : floats) (n : nvfile) : bool :=
+  N.eqb (rt_status ts prog fl n) 0.
 
 (* ---------------------------------------------------------------------------------------- *)
 (* "already in dependency order": every dependency of the k-th object has a smaller position
